@@ -25,6 +25,7 @@ Decided clauses:
   R4.9 HMAC key preparation (RFC 2104): in crypto_auth_hmacsha256_init / _hmacsha512_init the block size B is the length of the
        ipad / opad block handed to the hash; the caller's key is hashed first exactly on the paths whose branch facts give
        keylen >= B + 1, and used directly only with keylen <= B (which also bounds the `pad[i] ^= key[i]` loop).
+  R4.13 the SipHash absorption loops read every word of the stride they advance by, once.
   R4.12 the two Poly1305 update functions (donna, SSE2) have the same buffering skeleton (E7 sibling agreement).
   R4.11 blake2b_update compresses only under a strict `remaining > K` guard followed by `remaining -= K` (the last block is left
         to *_final).
@@ -179,6 +180,7 @@ def run(ctx, chk):
     # control skeletons (every branch condition, role-normalised) must be the same set (E7). A condition changed in one of them
     # (returning with a full buffer, absorbing a partial one) changes the tag for some chunkings on that backend only.
     poly1305_sibling_rule(prog, chk)
+    stride_tiling_rule(prog, chk)
 
 
 BLAKE2B_VECTOR = ("blake2b_compress_ssse3", "blake2b_compress_sse41", "blake2b_compress_avx2")
@@ -296,6 +298,63 @@ def _phi_is_last_block(fn, call_iid):
         else:
             leaves.add(_ptr_key(fn, o))
     return bool(seen) and bool(leaves) and leaves <= finals
+
+
+def stride_tiling_rule(prog, chk):
+    """R4.13 the SipHash absorption loops read every word of the stride they advance by: for a loop-carried input pointer that moves
+    by S bytes per iteration, the reads load64_le(p + k) inside the loop tile [0, S) exactly - no offset twice, none missing. (An
+    unrolled loop that absorbs one word twice and skips another keeps the output length and the tests for short inputs.)"""
+    from ..loopinv import natural_loops
+    WIDTH = {"load64_le": 8, "load32_le": 4, "load64_be": 8, "load32_be": 4}
+    n = 0
+    for f in sorted((g for g in prog.functions() if not g.decl and g.unit.startswith("crypto_shorthash/siphash24/ref/")), key=lambda g: g.name):
+        loops = natural_loops(f)
+        for h, body in loops.items():
+            for pid in f.blocks[h]["insts"]:
+                ph = f.insts[pid]
+                if ph["op"] != "phi" or ph.get("ty") != "i8*":
+                    continue
+                strides = set()
+                for v, b in ph["inc"]:
+                    if b in body and v[0] == "v":
+                        d = f.insts[v[1]]
+                        if d["op"] == "getelementptr" and d["ops"][0] == ["v", pid] and d.get("off") is not None and not d.get("var"):
+                            strides.add(d["off"])
+                if len(strides) != 1:
+                    continue
+                S = strides.pop()
+                reads = []
+                for i, ins in enumerate(f.insts):
+                    if ins["b"] not in body:
+                        continue
+                    c = ins.get("callee")
+                    if ins["op"] == "call" and c and c[0] == "g" and c[1] in WIDTH:
+                        o = ins["ops"][0]
+                        k = None
+                        if o == ["v", pid]:
+                            k = 0
+                        elif o[0] == "v" and f.insts[o[1]]["op"] == "getelementptr" and f.insts[o[1]]["ops"][0] == ["v", pid] \
+                                and f.insts[o[1]].get("off") is not None and not f.insts[o[1]].get("var"):
+                            k = f.insts[o[1]]["off"]
+                        if k is not None:
+                            reads.append((k, WIDTH[c[1]], i))
+                if not reads:
+                    continue
+                n += 1
+                reads.sort()
+                pos, why, at = 0, "", reads[0][2]
+                for k, w, i in reads:
+                    if k != pos:
+                        why = ("bytes [%d, %d) are read twice" % (k, min(pos, k + w))) if k < pos else ("bytes [%d, %d) are never read" % (pos, k))
+                        at = i
+                        break
+                    pos = k + w
+                if not why and pos != S:
+                    why = "the reads end at byte %d, the pointer advances by %d" % (pos, S)
+                chk.ob("R4.13", f, "the reads inside the absorbing loop at %s tile the %d bytes it advances by" % (f.loc(reads[0][2]), S), not why,
+                       loc=f.loc(at), detail="" if not why else why + ": those message bytes do not influence the hash (or do twice)",
+                       key="R4.13 %s tiling" % f.sname)
+    chk.floor("R4.13", "absorbing loops of the SipHash reference code", n, 2)
 
 
 def poly1305_sibling_rule(prog, chk):
